@@ -150,6 +150,17 @@ fn impulses<T: Flt>(acc: &mut Acc, tier: Tier, len: usize, window: WindowFunctio
                 ("huge-dynamic-range", Box::new(move |i| if i % 2 == 0 { big } else { 1.0 / big })),
                 ("subnormal", Box::new(move |i| tiny * (1 + i % 3) as f64)),
                 ("noise", Box::new(|i| (splitmix(i as u64) >> 44) as f64 / 524288.0 - 1.0)),
+                // exact relations between samples a fixed distance apart (halves of a vector, the
+                // two accumulators, neighbouring blocks): sums and differences that cancel exactly
+                // although the samples are not zero - a value-dependent shortcut shows here
+                ("antisymmetric-period-4", Box::new(|i| { let v = 0.25 + (splitmix((i % 2) as u64) >> 44) as f64 / 1048576.0; if i % 4 < 2 { v } else { -v } })),
+                ("antisymmetric-period-8", Box::new(|i| { let v = 0.25 + (splitmix((i % 4) as u64) >> 44) as f64 / 1048576.0; if i % 8 < 4 { v } else { -v } })),
+                ("antisymmetric-period-16", Box::new(|i| { let v = 0.25 + (splitmix((i % 8) as u64) >> 44) as f64 / 1048576.0; if i % 16 < 8 { v } else { -v } })),
+                ("antisymmetric-period-32", Box::new(|i| { let v = 0.25 + (splitmix((i % 16) as u64) >> 44) as f64 / 1048576.0; if i % 32 < 16 { v } else { -v } })),
+                ("periodic-8", Box::new(|i| 0.25 + (splitmix((i % 8) as u64) >> 44) as f64 / 1048576.0)),
+                ("opposite-pair-4-apart-in-silence", Box::new(|i| if i == 13 { 0.75 } else if i == 17 { -0.75 } else { 0.0 })),
+                ("opposite-pair-8-apart-in-silence", Box::new(|i| if i == 12 { 0.75 } else if i == 20 { -0.75 } else { 0.0 })),
+                ("silence-then-noise", Box::new(|i| if i < 24 { 0.0 } else { (splitmix(i as u64) >> 44) as f64 / 524288.0 - 1.0 })),
             ];
             for (wname, f) in &waves {
                 let wave: Vec<T> = (0..total).map(|i| T::from64(f(i))).collect();
@@ -255,7 +266,7 @@ impl Check for C15 {
         Ok(json!({
             "label": label, "evaluations": acc.evals, "nontrivial": acc.nontrivial,
             "outcomes": acc.outcomes.iter().collect::<Vec<_>>(), "found": acc.found,
-            "samples": [{"item": label, "point": "unit impulse at every position index-8..index+len+8, every start index and slice offset of the tier, all three kernels; six hard waveforms"}],
+            "samples": [{"item": label, "point": "unit impulse at every position index-8..index+len+8, every start index and slice offset of the tier, all three kernels; fourteen hard waveforms"}],
             "extra": {"worst_ulps": acc.worst_ulps},
         }))
     }
@@ -268,7 +279,7 @@ impl Check for C15 {
         crate::frame::replay_by_item(self, replay)
     }
     fn rule(&self, tier: Tier) -> String {
-        format!("full product of: T in {{f32,f64}} x sinc_len in {} x oversampling {{1,2,3,5,(7),128,256,(2048)}} x subindex (all for <=7; 10-25 representatives incl. both ends and powers of two for the large factors) x start index x slice offset x unit impulse at every position index-8..index+len+8, on scalar/SSE/AVX: bit-identical and exactly 0 outside the window; plus six hard waveforms within (len/4+8) eps of the sum of |products|; all six windows at len 64; run-time dispatch vs explicit kernels on 4 resampler configurations. Non-trivial = impulse inside the window", if tier == Tier::Quick { "all 64 multiples of 8 up to 512 (reduced start/offset sets)" } else { "all 64 multiples of 8 up to 512" })
+        format!("full product of: T in {{f32,f64}} x sinc_len in {} x oversampling {{1,2,3,5,(7),128,256,(2048)}} x subindex (all for <=7; 10-25 representatives incl. both ends and powers of two for the large factors) x start index x slice offset x unit impulse at every position index-8..index+len+8, on scalar/SSE/AVX: bit-identical and exactly 0 outside the window; plus fourteen hard waveforms within (len/4+8) eps of the sum of |products|; all six windows at len 64; run-time dispatch vs explicit kernels on 4 resampler configurations. Non-trivial = impulse inside the window", if tier == Tier::Quick { "all 64 multiples of 8 up to 512 (reduced start/offset sets)" } else { "all 64 multiples of 8 up to 512" })
     }
     fn assumptions(&self) -> Vec<String> {
         vec![
